@@ -27,7 +27,9 @@ SUB_RULE = ("sequential: method sequences on a real LocalSubscriber (buffer 1000
             "sequential schedule; schedules: 2-3 goroutines each running 1-3 of Dispatch(live/history)/Ready/Disconnect on one subscriber whose "
             "sources are instrumented at check time (yield before every statement, buffer capacity 2): every schedule with <= 2 preemptions "
             "(<= 400 runs per scenario, 3 / 5000 in thorough) plus random schedules; each distinct outcome (results, delivered ids, closed, panic, "
-            "all-blocked) must be an outcome of the atomic-method model and satisfy the spec predicate. non-trivial = scenario with more than one distinct outcome / "
+            "all-blocked) must be an outcome of the atomic-method model and satisfy the spec predicate (no panic / deadlock, no duplicate, only dispatched ids, buffer bound, "
+            "closed after Disconnect, one thread's successive live (resp. history) dispatches delivered in program order, every accepted update delivered once Ready has run "
+            "unless cut off). non-trivial = scenario with more than one distinct outcome / "
             "sequential history with a refused dispatch or a closed channel")
 SUB_TRUST = ["sync.RWMutex, sync/atomic and channels behave as the Go memory model says (DRF-SC); the model's steps are one shared access each",
              "the atomic-method model (Model/SubCases.v) used to predict outcome sets is an over-approximation stated, not proved, to contain the "
@@ -124,14 +126,14 @@ PROPS = {
             "rule": HUB_RULE + TRANS_RULE + " index: the operation histories of C05 against the real SubscriberList (private bit, claims, topics with the delimiter / escape characters): "
                     "who is handed a private update is decided there." + SUBEV_RULE, "trusted": HUB_TRUST + ["matching itself: C05/C11; token verification: C03"], "assumptions": []},
     "C06": {"binaries": ["verifh", "verifs", "verifr"],
-            "stages": [TRANS_STAGE, HUB_STAGE, RACE_STAGE],
-            "rule": TRANS_RULE.strip() + " hub-histories: " + HUB_RULE + " race-stress: unsteered concurrent publishers and subscribers on both transports under the Go race detector (supporting search).",
+            "stages": [TRANS_STAGE, SUB_STAGES[1], HUB_STAGE, RACE_STAGE],
+            "rule": TRANS_RULE.strip() + " schedules: " + SUB_RULE + " hub-histories: " + HUB_RULE + " race-stress: unsteered concurrent publishers and subscribers on both transports under the Go race detector (supporting search).",
             "trusted": HUB_TRUST + ["yieldify rewriter + cooperative scheduler (harness/cmd/yieldify, harness/overlay/zz_vsched.go.txt) for the schedule-steered stage"],
             "assumptions": ["update ids are distinct (exactly-once is stated for distinct ids)", "theorems about 'exactly the matching updates': persistent transport, retention off; "
                             "for the local transport and for bounded retention the same clauses are judged on the observed outcomes only"]},
     "C07": {"binaries": ["verifh", "verifs"],
-            "stages": [TRANS_STAGE, HUB_STAGE, {"kind": "cases", "name": "subscriber-sequential", "driver": "SUBSEQ", "n": {"quick": 60, "thorough": 600}}],
-            "rule": TRANS_RULE.strip() + " hub-histories: " + HUB_RULE + " subscriber-sequential: replays of 999/1000/1001/1500 updates through a real LocalSubscriber (buffer 1000): "
+            "stages": [TRANS_STAGE, SUB_STAGES[1], HUB_STAGE, {"kind": "cases", "name": "subscriber-sequential", "driver": "SUBSEQ", "n": {"quick": 60, "thorough": 600}}],
+            "rule": TRANS_RULE.strip() + " schedules: " + SUB_RULE + " hub-histories: " + HUB_RULE + " subscriber-sequential: replays of 999/1000/1001/1500 updates through a real LocalSubscriber (buffer 1000): "
                     "larger than the buffer means cut off with a gap-free prefix.",
             "trusted": HUB_TRUST + ["yieldify rewriter + cooperative scheduler for the schedule-steered stage", "bbolt cursor order and snapshot isolation of the read transaction"],
             "assumptions": ["theorems: persistent transport, retention off (with bounded retention the replay starts at the oldest retained entry: judged on the observed outcomes)",
